@@ -47,6 +47,7 @@ type Cell struct {
 	Indirect bool // external issuance-chain storage mode
 	Accept   string // Accept request header ("" = none)
 	Verbose  bool // the process runs with klog -v=3 (debug logging on)
+	SmallMax bool // get-entries: at most 4 entries per answer, and the range asked for crosses a multiple of 4, so that alignment shortens it
 	Bulky    bool // the stored entries are ~30 KiB each, so a reply of a few entries exceeds any ordinary buffer
 }
 
@@ -69,7 +70,7 @@ var replyFaults = map[string][]string{
 	"get-sth":             append(append([]string{}, rootGarbles...), "roothash-0", "roothash-31", "roothash-33"),
 	"get-sth-consistency": append(append([]string{}, rootGarbles...), "proof-absent", "proof-hash-0", "proof-hash-31", "proof-hash-33"),
 	"get-proof-by-hash":   append(append([]string{}, rootGarbles...), "proof-list-empty", "proof-hash-0", "proof-hash-31", "proof-hash-33", "proof-hash-31-then-good-proof", "proof-hash-0-then-good-proof"),
-	"get-entries":         append(append([]string{}, rootGarbles...), "surplus-leaves", "index-off", "out-of-order", "inner-swap", "inner-duplicate", "inner-foreign"),
+	"get-entries":         append(append([]string{}, rootGarbles...), "surplus-leaves", "surplus-one", "index-off", "out-of-order", "inner-swap", "inner-duplicate", "inner-foreign"),
 	"get-entry-and-proof": append(append([]string{}, rootGarbles...), "leaf-absent", "leafvalue-empty", "proof-absent", "proof-empty"),
 }
 
@@ -109,6 +110,9 @@ func matrix() []Cell {
 					if !mapper {
 						// debug logging is a process-wide configuration: every fault again with it switched on
 						out = append(out, Cell{Endpoint: ep, Fault: f, Mask: mask, Verbose: true})
+					}
+					if ep == "get-entries" && !mapper {
+						out = append(out, Cell{Endpoint: ep, Fault: f, Mask: mask, SmallMax: true})
 					}
 					if entryEP && !mapper {
 						out = append(out, Cell{Endpoint: ep, Fault: f, Mask: mask, Bulky: true}, Cell{Endpoint: ep, Fault: f, Mask: mask, Bulky: true, Indirect: true})
@@ -365,6 +369,12 @@ func mutateReply(how string, rsp proto.Message) proto.Message {
 		switch {
 		case isRoot:
 			garbleRoot(&r.SignedLogRoot, how)
+		case how == "surplus-one":
+			// exactly one leaf more than was asked for, contiguous with the rest
+			last := r.Leaves[len(r.Leaves)-1]
+			extra := proto.Clone(last).(*trillian.LogLeaf)
+			extra.LeafIndex = last.LeafIndex + 1
+			r.Leaves = append(r.Leaves, extra)
 		case how == "surplus-leaves":
 			last := r.Leaves[len(r.Leaves)-1]
 			for i := 1; i <= 3; i++ {
@@ -622,6 +632,14 @@ func checkCell(t *testing.T, c Cell) (v harness.Verdict) {
 	}
 	r.arm(c.Endpoint, c.Fault, 0)
 	q := validRequestB(c.Endpoint, 3, c.Fault.Kind == "beyond-tree", c.Bulky)
+	if c.SmallMax {
+		ctfe.MaxGetEntriesAllowed = 4
+		defer func() { ctfe.MaxGetEntriesAllowed = 1000 }()
+		if c.Fault.Kind != "beyond-tree" {
+			q.query = "start=1&end=5" // capped to 4 entries and shortened by alignment to [1,3]
+		}
+		v.Class("small-max-aligned-range")
+	}
 	o := r.do(q)
 	v.Class("ep:"+c.Endpoint, "fault:"+c.Fault.Kind)
 	judgeFault(&v, r, c.Endpoint, c.Fault, c.Mask, c.Mapper, o, "matrix")
